@@ -407,6 +407,13 @@ theorem nextSeq_nonmicro {s s' : State} {a : Act} {o : Out} (hs : step s a = som
       obtain ⟨rfl, -⟩ := hs
       simp
     · simp at hs
+  | routerOk c =>
+    simp only [step] at hs
+    split at hs
+    · simp only [Option.some.injEq, Prod.mk.injEq] at hs
+      obtain ⟨rfl, -⟩ := hs
+      simp
+    · simp at hs
   | stopReq c =>
     simp only [step] at hs
     split at hs
